@@ -121,6 +121,8 @@ class RealWorld:
 
     # -- writing ------------------------------------------------------------------
     def _dir(self, node, real, rel):
+        if node.dev != 1:
+            raise NotMaterialisable('device ids cannot be materialised')
         # children that are Manifests are written after everything below this directory,
         # and a Manifest referencing another one in the same directory after that one
         later = []
@@ -134,12 +136,15 @@ class RealWorld:
                 tgt = os.path.relpath(os.path.join(self.root, ch.target),
                                       os.path.dirname(p))
                 os.symlink(tgt, p)
+                continue
             elif ch.kind == 'fifo':
                 os.mkfifo(p)
             elif ch.kind == 'socket':
                 s = socket.socket(socket.AF_UNIX)
                 s.bind(p)
                 s.close()
+            elif ch.dev != 1:
+                raise NotMaterialisable('device ids cannot be materialised')
             elif ch.kind == 'file' and ch.is_manifest:
                 later.append((name, ch, p, r))
             elif ch.kind == 'file':
